@@ -260,6 +260,7 @@ void reb_whfast_kepler_solver(const struct reb_simulation* const r, struct reb_p
     // If solver did not work, fallback to bisection 
     if (converged == 0){ 
         double X_min, X_max;
+        int shrink_far = 0;
         if (beta>0.){
             //Elliptic
             X_min = X_per_period * floor(_dt*invperiod);
@@ -267,7 +268,11 @@ void reb_whfast_kepler_solver(const struct reb_simulation* const r, struct reb_p
         }else{
             //Hyperbolic
             double h2 = r0*r0*v2-eta0*eta0;
-            double q = h2/M/(1.+sqrt(1.-h2*beta/(M*M)));
+            double e2 = 1.-h2*beta/(M*M); // eccentricity squared
+            double q = h2/M/(1.+sqrt(e2));
+            // For e < 1e8 an overflow of the Stiefel functions inside the bracket is handled below.
+            // For e >= 1e8 the legacy behaviour is kept (straight line motion, relative error of order 1/e).
+            shrink_far = (e2 < 1e16);
             double vq = copysign( sqrt(h2)/q, _dt);
             // X_max and X_min correspond to dt/r_min and dt/r_max
             // which are reachable in this timestep
@@ -285,7 +290,15 @@ void reb_whfast_kepler_solver(const struct reb_simulation* const r, struct reb_p
         do{
             stiefel_Gs3(Gs, beta, X);
             double s   = r0*X + eta0*Gs[2] + zeta0*Gs[3]-_dt;
-            if (s>=0.){
+            if (shrink_far && !isfinite(s)){
+                // The Stiefel functions overflowed (s is NaN or +-inf): |X| is beyond anything reachable in this
+                // timestep, so shrink the bracket from its far end (X_max for _dt>0, X_min for _dt<0).
+                if (_dt>0.){
+                    X_max = X;
+                }else{
+                    X_min = X;
+                }
+            }else if (s>=0.){
                 X_max = X;
             }else{
                 X_min = X;
